@@ -28,14 +28,14 @@ def generate(rng, tier):
         # inverse field scaling
         q = r.logu(1e-3, 1e3); d = r.logu(1e-2, 1e2); s = r.logu(1e-3, 1e3); pw = r.choice([1.0, 2.0, 3.0])
         a = canon_angle(P, r, False)
-        ch = P.add('GScalar', P.f(q)); chn = P.add('GScalar', P.f(-q))
+        ch = P.add('GNewBlade', P.f(q), P.u(r.choice([0, 4, 8, 1000])), P.f(0.0), P.f(1.0)); chn = P.add('GNewBlade', P.f(q), P.u(r.choice([2, 6, 10, 1002])), P.f(0.0), P.f(1.0))
         kc = P.add('GScalar', P.f(r.logu(1e-3, 1e3))); pwr = P.add('GScalar', P.f(pw))
         d1 = P.add('GNewAngle', P.f(d), a); d2 = P.add('GNewAngle', P.f(d * s), a)
         f1 = P.add('TInvField', ch, d1, pwr, a, kc); f2 = P.add('TInvField', ch, d2, pwr, a, kc); fneg = P.add('TInvField', chn, d1, pwr, a, kc)
         import mpmath as mp
         want = mp.power(mp.mpf(d * s) / mp.mpf(d), pw)
         preds.append(('ratio_is', [f1, f2, ['#', mp.nstr(want, 40)], ['#', 50]]))
-        preds += [('steps', [f1, fneg, ['#', 2]]), ('mag_bits_equal', [f1, fneg])]
+        preds += [('steps', [f1, fneg, ['#', 2]]), ('mag_bits_equal', [f1, fneg]), ('inverse_field_ref', [ch, d1, pwr, a, kc, f1]), ('inverse_field_ref', [chn, d1, pwr, a, kc, fneg])]
         cur = P.add('GScalar', P.f(r.logu(1e-3, 1e3))); perm = P.add('GScalar', P.f(1.2566370614359173e-06))
         b1 = P.add('TWireB', d1, cur, perm); b2 = P.add('TWireB', d2, cur, perm)
         preds.append(('ratio_is', [b1, b2, ['#', mp.nstr(mp.mpf(d * s) / mp.mpf(d), 40)], ['#', 50]]))
